@@ -66,8 +66,8 @@ fn vx_collect<I: Iterator<Item = usize>>(it: I) -> (r: BTreeSet<usize>)
 
 // ---- used by matrix_degrees only (AdjacencyMatrix::size) ----
 /// bit k of x is set; the number of set bits among the k lowest bits of x
-spec fn bit_at(x: usize, k: usize) -> bool { x & (1usize << k) != 0 }
-spec fn ones_below(x: usize, k: nat) -> nat
+pub open spec fn bit_at(x: usize, k: usize) -> bool { x & (1usize << k) != 0 }
+pub open spec fn ones_below(x: usize, k: nat) -> nat
     decreases k
 {
     if k == 0 { 0 } else { ones_below(x, (k - 1) as nat) + if bit_at(x, (k - 1) as usize) { 1nat } else { 0nat } }
